@@ -62,6 +62,12 @@ def analyse(name, A, gen, vr, unit_props):
     R.panic_sites = A.panic_sites
     R.obligations = hqv.count_obligations(A)
     R.fn_info = {n: info for (_, _, n, info) in A.fn_ranges}
+    # several slices of one real function share its name: the loop counts / closure counts of ALL of them (the loop-structure and
+    # residual-closure policies compare a failing slice with these, not with whichever slice came last)
+    R.fn_loops_all, R.fn_rc_max = {}, {}
+    for (_, _, n, info) in A.fn_ranges:
+        R.fn_loops_all.setdefault(n, set()).add(info.get("n_loops", 0))
+        R.fn_rc_max[n] = max(R.fn_rc_max.get(n, 0), info.get("residual_closures", 0))
     # property tags that occur on clauses of a function (a function serves a property through its `props` or through a tagged clause)
     _lines = A.text.split("\n")
     R.fn_tags = {}
@@ -212,6 +218,8 @@ def cmd_rebaseline(args):
             "known_failing_functions": sorted({f["fn"] for f in R.failures}),
             "residual_closures": {n: i.get("residual_closures", 0) for n, i in sorted(R.fn_info.items()) if i.get("residual_closures", 0)},
             "loops": {n: i.get("n_loops", 0) for n, i in sorted(R.fn_info.items()) if i.get("n_loops", 0)},
+            "loops_all": {n: sorted(v) for n, v in sorted(R.fn_loops_all.items()) if v != {0}},
+            "residual_closures_max": {n: v for n, v in sorted(R.fn_rc_max.items()) if v},
             "obligation_sites": {k: v["total"] for k, v in sorted(R.obligations.items())},
             "trusted_items": sorted({f"{k}:{n}" for (k, n, _) in R.trusted}),
         }
